@@ -293,10 +293,13 @@ func (c *Cluster) queryHosts(ctx context.Context, conn *ClientConn, version prim
 	if err != nil {
 		return nil, ClusterInfo{}, err
 	}
-	if rs.RowCount() == 0 {
+	if rs == nil || rs.RowCount() == 0 {
 		return nil, ClusterInfo{}, errors.New("empty result set returned for system.local")
 	}
 	hosts = c.addHosts(hosts, rs)
+	if len(hosts) == 0 {
+		return nil, ClusterInfo{}, errors.New("unable to create a host from the system.local row")
+	}
 	row := rs.Row(0)
 	localDC := hosts[0].DC
 
@@ -328,6 +331,9 @@ func (c *Cluster) queryHosts(ctx context.Context, conn *ClientConn, version prim
 	})
 	if err != nil {
 		return nil, ClusterInfo{}, err
+	}
+	if rs == nil {
+		return nil, ClusterInfo{}, errors.New("no result set returned for system.peers")
 	}
 	hosts = c.addHosts(hosts, rs)
 
